@@ -122,3 +122,24 @@ def pick(i, seq):
         if i == j:
             return seq[j]
     return seq[n - 1]
+
+
+class _Null:
+    def __enter__(self):
+        return self
+
+    def __exit__(self, *a):
+        return False
+
+
+def untraced():
+    """Context manager: run a purely concrete part of a harness (snapshots, restores,
+    comparisons of concrete tables) outside the tracing interpreter.  Only for code
+    that touches no symbolic value."""
+    if CONCRETE:
+        return _Null()
+    try:
+        from crosshair.tracers import NoTracing, is_tracing
+    except Exception:
+        return _Null()
+    return NoTracing() if is_tracing() else _Null()
